@@ -154,6 +154,50 @@ def runC (f : File) (ix : List Entry) : Cache → List Op → List Ans
   | c, .lookup a :: ops => let r := lookupC f ix c a; .lookup r.2 :: runC f ix r.1 ops
   | c, .iter :: ops => let r := iterSymbolsC f ix c; .iter r.2 :: runC f ix r.1 ops
 
+/-! ### `iter_symbols` element by element
+
+The iterator returned by `iter_symbols` locks the cache once *per element* (lines 246-248), not once for the whole
+enumeration: between two elements of one thread's enumeration other threads' lookups and elements interleave. -/
+
+/-- one element (index `i` of `0..symbol_count()`) as written, through the cache -/
+def iterElemC (f : File) (ix : List Entry) (c : Cache) (i : Nat) : Cache × Option (Nat × Name) :=
+  match ix[i]? with
+  | none => (c, none)                                 -- not reached: `i < symbol_count()`
+  | some e =>
+    match e.kind with
+    | .public_ =>
+      let r := Memo.get f.pubAt c.pubs e.offset
+      ({ c with pubs := r.1 }, r.2.map fun n => (e.addr, n))
+    | .func =>
+      let r := Memo.get f.funcAt c.funcs e.offset
+      ({ c with funcs := r.1 }, r.2.map fun i => (e.addr, i.2))
+    | .other => (c, none)
+
+/-- cache-free meaning of one element -/
+def iterElem (f : File) (ix : List Entry) (i : Nat) : Option (Nat × Name) :=
+  (ix[i]?).bind fun e => (entryName f e).map fun n => (e.addr, n)
+
+/-- the critical sections of the map: a lookup, or one element of somebody's enumeration -/
+inductive Step where
+  | lookup (a : Addr)
+  | elem (i : Nat)
+deriving DecidableEq, Repr
+
+inductive StepAns where
+  | lookup (r : Out SymInfo)
+  | elem (o : Option (Nat × Name))
+deriving DecidableEq, Repr
+
+def pureStep (f : File) (ix : List Entry) : Step → StepAns
+  | .lookup a => .lookup (lookup f ix a)
+  | .elem i => .elem (iterElem f ix i)
+
+/-- any interleaving of critical sections -/
+def runSteps (f : File) (ix : List Entry) : Cache → List Step → List StepAns
+  | _, [] => []
+  | c, .lookup a :: st => let r := lookupC f ix c a; .lookup r.2 :: runSteps f ix r.1 st
+  | c, .elem i :: st => let r := iterElemC f ix c i; .elem r.2 :: runSteps f ix r.1 st
+
 /-! ### index construction from the records of a `.sym` file (executable side of the driver) -/
 
 /-- one `FUNC` / `PUBLIC` record in file order; the record's ordinal serves as its file offset -/
